@@ -12,1153 +12,1167 @@ Definition show_fres (r : fres) : string :=
   end.
 Definition check (rs : list rune) : string := digest (show_fres (format_res rs)).
 Definition full (rs : list rune) : string := show_fres (format_res rs).
-Eval vm_compute in ("<<<M1356>>>" ++ check (runes_of_ascii "// top
-options // c0a
-  // c0b
+Eval vm_compute in ("<<<M1343>>>" ++ check (runes_of_ascii "// top
+options
+    // c0
 { // c1a
   // c1b
-StringPrefixLenType = u8 ;
-    // c5
-ArrayPrefixLenType =
-    // c7
-u8 ; // c9
-FixedStringPadFromLeft // c10
-=
-    // c11
-false ; // c13
-FixedStringPadChar // c14
-= // c15a
-  // c15b
-' ' ; // c17a
-  // c17b
-} packet // c19a
-  // c19b
-Ack { // c21a
-  // c21b
-char[] // c22a
-  // c22b
-tag7 // c23a
-  // c23b
-, // c24a
-  // c24b
-} packet // c26
-Reject // c27a
-  // c27b
-{ InSym61
-    // c29
-{ // c30
-repeat // c31a
-  // c31b
-Ack
-    // c32
-, // c33a
-  // c33b
-zchar[ // c34
-4
-    // c35
-] // c36a
-  // c36b
-f1 , } // c39a
-  // c39b
-, // c40
-}
-    // c41
-packet // c42
-Logout // c43a
-  // c43b
-{ // c44
-char[ // c45a
-  // c45b
-4
-    // c46
-] // c47a
-  // c47b
-clOrdID // c48
-, // c49
-} // c50
-root packet
-    // c52
-Cancel // c53a
-  // c53b
-{ @leftPad ( // c56
-' ' // c57a
-  // c57b
-) // c58
-char[ // c59
-10 ] price // c62
-, u8
-    // c64
-x
-    // c65
-, // c66a
-  // c66b
-u32 // c67a
-  // c67b
-venue
-    // c68
-@lengthOf(
-    // c69
-Body
-    // c70
-) // c71a
-  // c71b
-, // c72a
-  // c72b
-match // c73a
-  // c73b
-x // c74
-as Body // c76a
-  // c76b
-{ [ 92 // c79
-,
-    // c80
-175 ] // c82
-: // c83
-Logout // c84
-,
-    // c85
-26 // c86a
-  // c86b
-: Reject // c88a
-  // c88b
-, // c89a
-  // c89b
-144 // c90a
-  // c90b
-:
-    // c91
-Ack
-    // c92
-, // c93
-} // c94a
-  // c94b
-, // c95
-u16 count // c97a
-  // c97b
-@calculatedFrom( // c98a
-  // c98b
-""CRC32""
-    // c99
-)
-    // c100
-, // c101
-} // c102a
-  // c102b
-")).
-Eval vm_compute in ("<<<M231>>>" ++ check (runes_of_ascii "root packet
-    metadata {  @lengthOf(
-options1
-) int32 zchar @calculatedFrom(""// no comment"" ) `
-` , repeat calculatedFrom `it's`, //
-match
-    BodyLength as lengthOf
-{ 3 /// triple
-:	leftPad , }, repeat
-u128, char[ 10
-] chars  ,// @lengthOf(
-falsey
-@calculatedFrom( ""x y"") // c
-`{ , }` ,	@tag(42
-)	float64
-    i64_
-    // packet A { u8 x, }
-    , u8x@calculatedFrom(  ""{,}"" ) `two words`
-//	t
-// trailing space 
-, @lengthOf(T)
-char[	255]  pack `it's`
-,match MetaDataX
-as i64_{
-    //
-    """ ++ [28040; 24687]%N ++ runes_of_ascii """ // @lengthOf(
-:Header , 0
-    //
-    : x_y_z 3 : // `tick` ""quote"" 'q'
-int""abc""
-    // @lengthOf(
-    : u8x ,
-    } , } packet i64_
-{@rightPad ( ) /// triple
-pack {
-match MetaDataX
-    as trueish { 1 // @lengthOf(
-:
-    len
-00	: falsey // packet A { u8 x, }
-,"""" :
-x ,
-}, } , @tag(1) char[]int @lengthOf(	metadata
-) // packet A { u8 x, }
-, a1 @lengthOf( calculatedFrom ) ,
-    @tag( 7
-    )tag@lengthOf(u ) , BodyLength /// triple
-@calculatedFrom( ""it's""
-) `say ""hi""` ,string
-msg_type ,
-    }
-    MetaData
-    Logon { BodyLength
-_x `it's` , int32 body ,
-    // trailing space 
-    } root	packet body{  }
-")).
-Eval vm_compute in ("<<<M1627>>>" ++ check (runes_of_ascii "
-options
-{
-StringPrefixLenType	=u64
-
-    ; ArrayPrefixLenType
-
-    = u32
-
-;FixedStringPadFromLeft=
-false ; }
-
-    packet
-Party{
-zchar[
-
-7
-
-    ] OrderId
-, InTail6
-{	repeat
-char[  1
-    ]
-
-    msgKind
-	, char[
-
-    3 ]
-Tail , 
-char[3
-]Flags
-, 
-i16
-
-    tag7
-	, }
-, @rightPad
-
-( '0'
-
-    ) char[  12 ] 
-clOrdID
-	,  }
-packet
-
-    Quote
-
-    {
-
-@leftPad	(	'0' ) 
-char[ 
-11  ]
-
-price
-
-    , repeat InCount7 {	i32
-	x, Party ,u8 Ref ,
-	u8
-
-tag7
-	,
-}	, char[]
-    seqNo,
-Party,  }
-packet
-
-Logon {
-@rightPad  (
-'\x00')
-char[
-    5 ] 
-Note
-	, i16 
-sym , InPrice72 { 
-char[
-
-    9 ]
-Ref , zchar[
-
-    1  ]	venue, }
-
-    ,char[] 
-clOrdID , }
-	root
-	packet
-
-    Reject
-    {
-
-repeat	Logon 
-,
-    @leftPad
-
-    (	' ' )
-char[4 ]
-	seqNo ,
-    zchar[
-	5	]
-
-Acct,
-
-    u32 x , u16 f1
-    @lengthOf(	Body )	, match
-x as Body
-    {
-[
-    169 ,	74] : Quote
-	,
-    45 
-: 
-Party	, 
-7
-:	Logon
-,
-
-} ,
-}")).
-Eval vm_compute in ("<<<M1878>>>" ++ check (runes_of_ascii "packet o {
-    repeat pack stringy `two words`,
-    char[1] leftPad,
-}
-
-MetaData msg_type {
-    zchar[1] Pad `" ++ [28040; 24687; 31867; 22411]%N ++ runes_of_ascii "`,
-    uint32 charz `a\`,
-    A u8x `// not a comment`,
-}
-
-packet options1 {
-    @calculatedFrom(""" ++ [233]%N ++ runes_of_ascii "t" ++ [233]%N ++ runes_of_ascii """)
-    @rightPad()
-    Pad @lengthOf(pack) ``,
-    match A as a1 {
-        255 : msg_type,
-    },
-    @lengthOf(tag)
-    @tag(00)
-    @rightPad(' ')
-    match Header as f32a {
-        """" : float,
-    },
-    char[] T @calculatedFrom(""packet""),
-    repeat asx msg_type `crlf
-        line`,
-    @calculatedFrom(""\" ++ [233]%N ++ runes_of_ascii """)
-    @tag(7)
-    int64 o `line1
-        line2`,
-}// " ++ [128512]%N ++ runes_of_ascii " emoji
-
-root packet crc {
-    int8 body @lengthOf(matchKey) `two words`,
-    @lengthOf(u8x)
-    zchar[0123456789] i8i8,
-}
-
-MetaData a1 {
-    falsey _x `
-        `,
-    char[] body `" ++ [28040; 24687; 31867; 22411]%N ++ runes_of_ascii "`,
-    zchar[42] trueish `
-        `,
-    float trueish,
-    metadata o `{ , }`,
-}")).
-Eval vm_compute in ("<<<M1614>>>" ++ check (runes_of_ascii "options {
-    StringPrefixLenType = u16;
-    ArrayPrefixLenType = u32;
-    FixedStringPadFromLeft = true;
-    FixedStringPadChar = '0';
-}
-
-packet Cancel {
-}
-
-packet Party {
-}
-
-packet Logon {
-}
-
-packet Ack {
-}
-
-packet Logout {
-    repeat InSym87 {
-        InClordid94 {
-            string clOrdID,
-        },
-        string Px,
-        i16 Qty,
-        repeat InCount71 {
-            repeat Cancel,
-            uint16 Tail,
-            char[2] x,
-            repeat string Ref,
-        },
-        Cancel,
-    },
-}
-
-root packet Order {
-    repeat string tag7,
-    @leftPad(' ')
-    char[3] Px,
-    u8 Qty,
-    match Qty as Body {
-        [28, 62] : Logon,
-        148 : Ack,
-        88 : Party,
-        184 : Cancel,
-    },
-    u16 Note @calculatedFrom(""CR\
-    C32""),
-}")).
-Eval vm_compute in ("<<<M201>>>" ++ check (runes_of_ascii "packet charz
-{ //	t
-repeat i64_ ,trueish {
-repeat _x
-    ,	repeatCount, repeat u16
-matchKey `
-`
-,
-// " ++ [128512]%N ++ runes_of_ascii " emoji
-// a // b
-matchKey @calculatedFrom( ""a\""b"" )
-`it's` ,}	,
-@tag(
-007 )@calculatedFrom(
-    ""a\\"")	@tag(
-    3 // @lengthOf(
-)f32 f32a @lengthOf(asx ) `crlf
-line` // packet A { u8 x, }
-, repeat i8 string_
-,
-    @lengthOf(
-    // @lengthOf(
-    Logon  ) @lengthOf( x_y_z )
-    @lengthOf(
-zchar
-    ) repeat char[ 65535	] Foo`" ++ [233]%N ++ runes_of_ascii "`,
-@calculatedFrom(//
-""abc""
-) trueish @lengthOf( A )
-// " ++ [27880; 37322]%N ++ runes_of_ascii "
-// a // b
-,char[ 0 ] float , Packet
-    @calculatedFrom( ""a	b""
-), } MetaData
-    Pad { char[ 00 ] leftPad , u8 rootA `
-`,
-//
-// " ++ [128512]%N ++ runes_of_ascii " emoji
-int32
-    a1	`say ""hi""`
-    ,
-Z9_ float , //x
-i32 Pad ,
-}")).
-Eval vm_compute in ("<<<M23>>>" ++ check (runes_of_ascii "MetaData lengthOf
-{ }
-MetaData falsey { // " ++ [27880; 37322]%N ++ runes_of_ascii "
-falsey i64_
-`
-`	, zchar[ 255	] u `two words` ,	BodyLength int , matchKey	i8i8 `crlf
-line` ,uint8x	asx ,
-char[]options1 ,	}packet
-    asx  {	@lengthOf( o
-)@calculatedFrom(//
-""\n"" ) char[] lengthOf  `two words`// c
-,
-    BodyLength `" ++ [233]%N ++ runes_of_ascii "` ,repeat u8x len // " ++ [27880; 37322]%N ++ runes_of_ascii "
-`doc`
-, int
-@calculatedFrom(
-""a\\""
-    ) `line1
-line2`,@lengthOf( MetaDataX
-)
-Packet packetx
-    // `tick` ""quote"" 'q'
-    , a1 {
-    match Logon	as
-// " ++ [128512]%N ++ runes_of_ascii " emoji
-/// triple
-len {	4294967296
-:matchKey , [
-1  , 10 , 10 ,
-""{,}"" , """ ++ [233]%N ++ runes_of_ascii "t" ++ [233]%N ++ runes_of_ascii """ , 0123456789]: leftPad ,  3
-    :msg_type ,
-//	t
-//x
-1 : As
-,} ,
-    chars , }
-    ,}
-")).
-Eval vm_compute in ("<<<M1357>>>" ++ check (runes_of_ascii "  options 
-{
-StringPrefixLenType
-= 
+LittleEndian
+    // c2
+= // c3a
+  // c3b
+false
+    // c4
+; ArrayPrefixLenType = // c7a
+  // c7b
 u8
-;
-ArrayPrefixLenType=  u8 ;
-
-FixedStringPadFromLeft
-    =
-false 
-;
-	FixedStringPadChar
-=' '
-
-;
-    } packet Ack	{ 
-char[]
-	tag7,	}
-	packet
-    Reject 
-{InSym61
-    {
-
-repeat
-
-Ack
-, zchar[4
-]
-	f1
-, 
-}
-,}	packet
-Logout{
-char[
-
-4
-
-    ] clOrdID , 
-}
-	root
-packet Cancel  {@leftPad
-    ( 
-' ')
-
-char[
-
-    10
-
-]	price
-,u8
-	x
-, u32 venue 
-@lengthOf(
-Body	) ,	match
-
-    x  as Body  {
-[ 
-92 ,  175 ]
-    : Logout ,  26
-:
-Reject
-
-    , 144 
-:
-	Ack	, }
-    ,u16  count	@calculatedFrom(
-    ""CRC32""	)
-
-    , }
-")).
-Eval vm_compute in ("<<<M1637>>>" ++ check (runes_of_ascii "MetaData u128 {
-    zchar[3] matchKey `crlf
-        line`,
-}
-
-// packet A { u8 x, }
-options {
-}
-
-root packet rootA {
-    @calculatedFrom(""{,}"")
-    repeat u16 len,
-    repeat body,
-    i8i8 @lengthOf(packetx),
-    metadata int `line1
-        line2`,
-    uint8x `two words`,
-    int16 x_y_z,
-    repeatCount,
-    Logon {
-        repeat i8 Packet `line1
-                line2`,
-    },
-}
-
-options {
-    // " ++ [128512]%N ++ runes_of_ascii " emoji
-    lengthOf = ' ';
-    i64_ = ""{,}"";
-    msg_type = '0';
-    u = i32;
-    _x = ""abc"";
-}")).
-Eval vm_compute in ("<<<M1789>>>" ++ check (runes_of_ascii "options
-{	LittleEndian 
-=	true
-
-; StringPrefixLenType =
-
-    u64;
-ArrayPrefixLenType = u16  ;
-	FixedStringPadFromLeft
-	=	false ;	FixedStringPadChar = 
-' ' ;	} packet
-
-Logon
-    {  zchar[ 5
-]Side2
-	,
-	}  root packet 
-Logout{ 
-repeat i64
-	Tail
-	, Logon
-    ,  repeat
-
-    i16
-    OrderId,
-	char[]
-venue ,
-uint64 
-x
-
-,
-repeat i16  count
-    ,
-	u8
-    Flags  ,
-	match
-Flags as Body	{25 : Logon ,
-    }	,
-
-    u16
-
-Qty@calculatedFrom(
-""CRC32"" 
-)	,  }")).
-Eval vm_compute in ("<<<M1784>>>" ++ check (runes_of_ascii "// top
-options {
-    // c1a
-    // c1b
-    LittleEndian = false;// c5a
-    // c5b
-    StringPrefixLenType = u16;
-}// c10
-
-packet Heartbeat {
-    @rightPad('0')
-    char[7] seqNo,// c22a
-    // c22b
-    uint64 Tail,// c25a
-    // c25b
-    i16 Flags,// c28a
-    // c28b
-    u16 msgKind,
-}// c32a
-
-// c32b
-root packet Reject {
-    zchar[3] tag7,// c41
-    repeat Heartbeat,
-    repeat string clOrdID,
-}")).
-Eval vm_compute in ("<<<M1265>>>" ++ check (runes_of_ascii "// top
-packet // c0
-B // c1
-{ // c2
-u8 // c3
-a , // c5a
-  // c5b
-} // c6
-root // c7
-packet P // c9a
-  // c9b
-{ // c10a
+    // c8
+; // c9
+FixedStringPadFromLeft // c10a
   // c10b
-u8 // c11
-K , // c13a
-  // c13b
-match K // c15a
-  // c15b
-as // c16a
-  // c16b
-Body { // c18
-1 :
-    // c20
-B , }
-    // c23
-, // c24a
-  // c24b
-u16 // c25a
-  // c25b
-L // c26
-@lengthOf( Body
-    // c28
-)
+= // c11
+true ; // c13
+FixedStringPadChar
+    // c14
+= '0' // c16
+;
+    // c17
+} // c18
+packet
+    // c19
+Heartbeat {
+    // c21
+string lastPx , uint8 // c25
+Qty ,
+    // c27
+i64 // c28a
+  // c28b
+Acct
     // c29
 ,
     // c30
-} ")).
-Eval vm_compute in ("<<<M1458>>>" ++ check (runes_of_ascii "
-packet Logon{
-o Header,
-
-    Header
+char[ // c31
+4 ] // c33
+Ref // c34
+, // c35
+} packet // c37
+Fill // c38
+{ // c39
+uint8 // c40a
+  // c40b
+Ref // c41
+, Heartbeat // c43
+, // c44a
+  // c44b
+f32 // c45
+OrderId , // c47
+repeat f32 // c49
+x
+    // c50
+, // c51a
+  // c51b
+} root packet Order
+    // c55
+{ // c56a
+  // c56b
+zchar[
+    // c57
+2 // c58
+] // c59a
+  // c59b
+OrderId ,
+    // c61
+zchar[ // c62a
+  // c62b
+2 ]
+    // c64
+Acct
+    // c65
 ,
-
-    @lengthOf(u	)
-char[
-255 ] tag `tab	here`
-	,	char[]
-falsey
-
+    // c66
+zchar[ // c67
+1 ] // c69
+Note // c70a
+  // c70b
 ,
-    @lengthOf( zchar	)
-@rightPad
-(  )
+    // c71
+zchar[
+    // c72
+9 // c73
+] Qty // c75a
+  // c75b
+, // c76a
+  // c76b
+string price // c78
+, // c79
+string // c80a
+  // c80b
+tag7
+    // c81
+, // c82a
+  // c82b
+u32
+    // c83
+x
+    // c84
+, // c85a
+  // c85b
+match // c86
+x as // c88
+Body // c89
+{ // c90
+123 // c91
+: // c92a
+  // c92b
+Fill , // c94a
+  // c94b
+112 // c95a
+  // c95b
+: // c96a
+  // c96b
+Heartbeat , // c98
+} // c99
+, // c100
+u32 seqNo
+    // c102
+@calculatedFrom( // c103
+""CRC32"" // c104
+)
+    // c105
+,
+    // c106
+} // c107
+")).
+Eval vm_compute in ("<<<M1818>>>" ++ check (runes_of_ascii "packet o 
+// trailing space 
+//x
+		{  repeat
+
+    pack
+stringy
+
+    `two words`
+	,
+    char[ 1  ] leftPad
+	, } 
+  /// triple
+  	// @lengthOf(
+  MetaData msg_type {
+zchar[ 1  ]
+Pad`" ++ [28040; 24687; 31867; 22411]%N ++ runes_of_ascii "` ,
+uint32 	 //x
+
+	charz//
+		`a\` ,
+
+    A
+
+    u8x
+`// not a comment`
+
+    , 
+// `tick` ""quote"" 'q'
+  } packet options1 {@calculatedFrom(
+	""" ++ [233]%N ++ runes_of_ascii "t" ++ [233]%N ++ runes_of_ascii """
+)
+	@rightPad
+
+( ) Pad @lengthOf(// packet A { u8 x, }
+    pack)
+``,match  A as a1
+{
+255 : msg_type,}
+    ,
+	    // " ++ [27880; 37322]%N ++ runes_of_ascii "
+  //
+	@lengthOf( tag
+    )@tag(
+00 )@rightPad
+
+    (  ' ' 
+) match
+
+Header 
+as
+f32a
+{"""":
     float
-	roots 	 // @lengthOf(
-,@calculatedFrom(
-""// no comment""
-    )
-i64 u8x
+	,}  // @lengthOf(
+  ,  char[]T@calculatedFrom( 
+// packet A { u8 x, }
+
+""packet""  )
+
+,repeat asx/// triple
+    	msg_type
+    `crlf
+line` , @calculatedFrom(""\" ++ [233]%N ++ runes_of_ascii """ )
+@tag( 	 // trailing space 
+	7
+	)
+	int64
+
+o`line1
+line2`
+
+    , 
+    // trailing space 
+	}// " ++ [128512]%N ++ runes_of_ascii " emoji
+    	root packet  // packet A { u8 x, }
+  crc  {
+
+int8
+body
+	@lengthOf( 
+matchKey )	`two words`
+, 
+      //	t
+		@lengthOf(
+	u8x
+
+)	zchar[ 0123456789]	i8i8 , }
+    MetaData  a1 {	falsey _x
+	`
+` ,
+char[] 
+body `" ++ [28040; 24687; 31867; 22411]%N ++ runes_of_ascii "` , 
+    // packet A { u8 x, }
+  //
+  zchar[42]
+
+trueish `
+`
+
+,  float
+    trueish, metadata 	 //x
+	o`{ , }`  ,	}
+
+")).
+Eval vm_compute in ("<<<M1461>>>" ++ check (runes_of_ascii "packet falsey {
+    i64_,
+    charz {
+        match Packet as Pad {
+            ""\n"" : Packet,
+            ""// no comment"" : f32a,
+            [3, 4294967296, 10, 7, 10] : u,
+            // trailing space 
+            ""`tick`"" : u8x,
+            [7, ""it's""] : Packet,
+            0 : len,
+        },
+    },/// triple
+    @lengthOf(f32a)
+    char[3] options1 @lengthOf(Pad),
+    zchar[0123456789] T ``,
+}
+
+packet Pad {
+    // c
+    o roots `{ , }`,
+}
+
+packet f32a {
+    _x @calculatedFrom(""x y""),
+    @tag(65535)
+    //	t
+    char pack @lengthOf(zchar),
+    repeat int64 falsey,
+    repeat len {
+        match A as rootA {
+            [42, ""\n""] : Z9_,
+        },
+        repeat i16 A,
+        repeat zchar[65535] tag `
+                `,
+        f64 float @lengthOf(f32a) ``,
+        // `tick` ""quote"" 'q'
+        // packet A { u8 x, }
+    },
+    x u8x,
+    @tag(42)
+    repeat As Packet,
+    @lengthOf(Pad)
+    repeat f64 rootA,// @lengthOf(
+}")).
+Eval vm_compute in ("<<<M1123>>>" ++ check (runes_of_ascii "// top
+options
+    // c0
+{
+    // c1
+uint8x
+    // c2
+=
+    // c3
+007
+    // c4
+;
+    // c5
+lengthOf
+    // c6
+=
+    // c7
+i8
+    // c8
+;
+    // c9
+}
+    // c10
+packet
+    // c11
+i64_
+    // c12
+{
+    // c13
+@calculatedFrom(
+    // c14
+""1""
+    // c15
+)
+    // c16
+@tag(
+    // c17
+3
+    // c18
+)
+    // c19
+@lengthOf(
+    // c20
+rootA
+    // c21
+)
+    // c22
+repeat
+    // c23
+int8
+    // c24
+Packet
+    // c25
+`u8 x,`
+    // c26
 ,
-
-} 
-options {
-
-metadata
+    // c27
+}
+    // c28
+root
+    // c29
+packet
+    // c30
+stringy
+    // c31
+{
+    // c32
+@rightPad
+    // c33
+(
+    // c34
+' '
+    // c35
+)
+    // c36
+repeat
+    // c37
+char[
+    // c38
+10
+    // c39
+]
+    // c40
+repeatCount
+    // c41
+,
+    // c42
+@tag(
+    // c43
+255
+    // c44
+)
+    // c45
+float64
+    // c46
+msg_type
+    // c47
+@calculatedFrom(
+    // c48
+""packet""
+    // c49
+)
+    // c50
+,
+    // c51
+}
+    // c52
+")).
+Eval vm_compute in ("<<<M230>>>" ++ check (runes_of_ascii "packet rootA{	match
+zchar as
+    // " ++ [128512]%N ++ runes_of_ascii " emoji
+    int {
+    [ ""it's""
+, ""1""]
+    :// c
+tag ,
+    } , char Packet @lengthOf( body ) , metadata @lengthOf( packetx ) ,@calculatedFrom( """ ++ [128512]%N ++ runes_of_ascii """	)match
+    repeatCount as f32a { """ ++ [28040; 24687]%N ++ runes_of_ascii """
+    :chars ,
+    }
+    ,@lengthOf(string_ )char[ 0
+    //
+    ] len @calculatedFrom(
+""abc"" )
+,
+    // `tick` ""quote"" 'q'
+    u8 uint8x@lengthOf( roots)  `say ""hi""`
+, int @calculatedFrom( ""a\""b"") ,match
+msg_type as i8i8 {// c
+""\" ++ [233]%N ++ runes_of_ascii """
+// " ++ [27880; 37322]%N ++ runes_of_ascii "
+// packet A { u8 x, }
+: Header , 1 : zchar,
+    [ ""\n""	]
+:	string_
+""\n"" :i8i8 0123456789 : Logon
+    [ 00 , 007 ,""1"" ,
+    //	t
+    ""it's""
+    , ""// no comment""
+    ,
+    0
+, ""a\\"" ,// packet A { u8 x, }
+007 ]
+    :BodyLength}
+, match rootA as // c
+chars  {
+7
+:
+    // @lengthOf(
+    Header }
+, A Foo `tab	here` ,
+}
+")).
+Eval vm_compute in ("<<<M192>>>" ++ check (runes_of_ascii "// trailing space 
+options { f32a=
+false;	stringy=	true
+;
+u=  ""\" ++ [233]%N ++ runes_of_ascii """  ;
+    stringy = false;
+} packet options1 // " ++ [27880; 37322]%N ++ runes_of_ascii "
+{
+} MetaData
+packetx { f32 uint8x  ,  } root packet zchar {
+@tag( 4294967296
+) @lengthOf(a1
+)
+i8
+_x
+`it's` ,//x
+char[]	o , body
+    ,
+zchar[ 65535] msg_type
+`crlf
+line` , repeat
+    BodyLength{ repeat char[ 65535
+    ] stringy,
+},
+@calculatedFrom( """ ++ [128512]%N ++ runes_of_ascii """
+) @tag( 10
+    // a // b
+    ) repeat f32
+lengthOf`line1
+line2` , repeat  u {
+    uint32 Z9_, //
+repeat body
+`
+` , }  , @tag( 4294967296
+) i64_ @lengthOf( tag
+    // packet A { u8 x, }
+    ), @lengthOf(//	t
+float) @lengthOf(
+    // " ++ [128512]%N ++ runes_of_ascii " emoji
+    packetx	) @calculatedFrom( """ ++ [128512]%N ++ runes_of_ascii """
+)	repeat x_y_z u  ,@tag( 65535 )u8
+A	,} //")).
+Eval vm_compute in ("<<<M227>>>" ++ check (runes_of_ascii "packet	crc
+    { @lengthOf(Header )	repeat roots
+    // @lengthOf(
+    `a\` ,
+@lengthOf( tag ) match x as string_{ [ ""a\\"" , ""packet""
+] : Header""// no comment""
+    /// triple
+    :
+Logon , 7:
+falsey ,7  : metadata [ 7  , 00] :
+    // `tick` ""quote"" 'q'
+    repeatCount 3 : u ,
+},
+    //	t
+    @lengthOf( u128
+//
+// " ++ [27880; 37322]%N ++ runes_of_ascii "
+) @rightPad
+(
+'\x00' // c
+)
+char[] int ,int16 Packet @lengthOf(  string_
+    ) , trueish{ repeat
+crc {zchar
+calculatedFrom , } ,
+} ,
+// @lengthOf(
+//x
+@rightPad
+( ) repeat
+    _x pack // " ++ [27880; 37322]%N ++ runes_of_ascii "
+, @lengthOf(
+// c
+// trailing space 
+chars)repeat
+    string_ {repeat
+    uint8x`// not a comment`,}
+, }")).
+Eval vm_compute in ("<<<M1570>>>" ++ check (runes_of_ascii "
+options{ 
+StringPrefixLenType
 
     =
+u8; ArrayPrefixLenType =
 
-    '0'
+    u8
+;	FixedStringPadFromLeft  =
+false 
+;
+FixedStringPadChar 
+=
+' ' 
+;
+} packet
+	Ack
+{
+	char[]	tag7
+,	}
 
-;_x=
+packet	Reject
+	{InSym61  {repeat
+    Ack,
 
-4294967296  ;Packet
-	=  '0'	;
-	}")).
-Eval vm_compute in ("<<<M1308>>>" ++ check (runes_of_ascii "packet A {
+    zchar[
+
+    4 ]f1	,
+},} packet
+
+Logout
+	{
+
+char[4 
+]clOrdID
+	,
+} 
+root
+	packet
+Cancel { 
+@leftPad	(
+' ' ) char[
+	10  ]price , u8
+	x
+
+, u32
+venue@lengthOf( 
+Body )
+,
+    match x
+    as
+	Body  {
+[92	,	175
+
+    ]
+:  Logout
+	,
+    26
+
+    :
+Reject  , 144 
+: Ack
+,  }
+
+, 
+u16
+
+    count	@calculatedFrom(	""CRC32"" )
+
+    ,  }
+
+")).
+Eval vm_compute in ("<<<M1655>>>" ++ check (runes_of_ascii "options
+
+    { 
+LittleEndian
+
+    =true
+    ; StringPrefixLenType  =	u64	;
+ArrayPrefixLenType=
+    u16 ;FixedStringPadFromLeft 
+=
+false
+;FixedStringPadChar
+=	' ' 
+; } packet 
+Logon
+
+{ zchar[
+
+5
+
+    ]
+Side2 ,
+    }
+
+    root
+    packet
+	Logout { repeat
+
+i64 
+Tail 
+,
+	Logon 
+,
+
+repeat
+
+i16 OrderId
+    ,
+	char[]
+venue
+,
+    uint64
+
+x ,
+repeat i16
+
+    count
+
+    , u8
+	Flags	,
+
+    match 
+Flags	as
+    Body
+
+    { 25 :
+    Logon ,
+} ,
+u16
+    Qty@calculatedFrom(	""CR\
+C32""
+    ) ,
+
+} ")).
+Eval vm_compute in ("<<<M264>>>" ++ check (runes_of_ascii "options  {
+    float
+=
+    char[]
+} // packet A { u8 x, }
+root packet
+    Logon
+    { @tag( 1 ) // a // b
+@calculatedFrom( ""packet""
+// a // b
+// " ++ [128512]%N ++ runes_of_ascii " emoji
+)zchar[ 3 ]
+// c
+//x
+Z9_ ,@lengthOf( charz )
+@calculatedFrom( ""1""
+)match
+roots
+as int
+    { ""a	b""
+:MetaDataX , }
+    ,@calculatedFrom( ""a\""b""	)
+    match
+    asx as lengthOf { """ ++ [128512]%N ++ runes_of_ascii """
+    : _x,
+[ 255 ] : BodyLength
+    ,3 :
+    u8x , 0123456789:T} ,
+    len@lengthOf(leftPad )`u8 x,` , } // @lengthOf(")).
+Eval vm_compute in ("<<<M349>>>" ++ check (runes_of_ascii "root
+packet body {
+    @lengthOf(
+int
+// @lengthOf(
+//x
+)string tag
+    ,	Pad BodyLength , Z9_ {
+    /// triple
+    u `` , zchar[ 7] u ,
+},uint64 calculatedFrom, }packet
+msg_type {match f32a// " ++ [128512]%N ++ runes_of_ascii " emoji
+as pack
+    { ""// no comment"" : trueish
+, }
+    // trailing space 
+    , @calculatedFrom( // @lengthOf(
+""abc""
+)
+    @leftPad (
+' ') @calculatedFrom( """" //x
+) // c
+matchKey T ,// `tick` ""quote"" 'q'
+}
+")).
+Eval vm_compute in ("<<<M1661>>>" ++ check (runes_of_ascii "// top
+root packet _x {
+    // c3
+    match Foo as Z9_ {
+        // c8
+        ""a	b"" : Pad,
+        // c12
+    },// c14
+    repeat x `line1
+        line2`,// c18
+    @rightPad(' ')
+    // c22
+    @calculatedFrom(""a\\"")
+    // c25
+    metadata MetaDataX,// c28
+    @tag(0)
+    // c31
+    Logon int ``,// c35
+}// c36
+
+options {
+    // c38
+    T = '\x00'// c41
+}// c42")).
+Eval vm_compute in ("<<<M109>>>" ++ check (runes_of_ascii "MetaData Header{ } packet crc {	match zchar as leftPad // `tick` ""quote"" 'q'
+{ 7 : As 0 : Packet , [
+00 // " ++ [128512]%N ++ runes_of_ascii " emoji
+]
+: Pad ,
+//x
+//x
+""// no comment""
+    :
+    calculatedFrom
+,	3
+    :
+string_ , } ,falsey  packetx `crlf
+line` , // " ++ [27880; 37322]%N ++ runes_of_ascii "
+@tag( 42 )repeat
+u64 packetx,
+@calculatedFrom(  ""1"" ) repeat u16 calculatedFrom, }
+")).
+Eval vm_compute in ("<<<M35>>>" ++ check (runes_of_ascii "  packet Header
+{ @calculatedFrom( // a // b
+""a	b"" )
+char[
+    255] falsey `tab	here`,int8
+    // " ++ [27880; 37322]%N ++ runes_of_ascii "
+    u
+`doc` , float32 lengthOf
+    @calculatedFrom(
+""a	b""  )
+    // a // b
+    , @rightPad (
+' '  ) @tag( 3
+) float64 asx
+    ,
+int8 metadata @lengthOf(zchar )// a // b
+,Pad f32a , }")).
+Eval vm_compute in ("<<<M1379>>>" ++ check (runes_of_ascii "options {
+    LittleEndian = true;
+}
+packet Logon {
+    u8 x,
+    string user,
+}
+packet Logout {
+    u16 reason,
+}
+packet Empty {
+}
+root packet Frame {
+    u16 MsgType,
+    u8 BodyLen @lengthOf(Body),
+    u8 flags,
+    Logon Body,
+    u32 trailer,
+}
+")).
+Eval vm_compute in ("<<<M183>>>" ++ check (runes_of_ascii "root
+packet tag {
+@calculatedFrom(
+""{,}""
+    // `tick` ""quote"" 'q'
+    )
+@tag(
+//x
+// " ++ [27880; 37322]%N ++ runes_of_ascii "
+42
+    )
+    i64_ @lengthOf( calculatedFrom ) , zchar[// " ++ [128512]%N ++ runes_of_ascii " emoji
+3 // @lengthOf(
+] int  , } root// c
+packet Foo { }
+// @lengthOf(
+")).
+Eval vm_compute in ("<<<M1547>>>" ++ check (runes_of_ascii "packet _x {
+    repeat char[] matchKey,
+    @leftPad()
+    x_y_z T,
+    Pad {
+        zchar[1] rootA `tab	here`,
+    },
+    Foo @calculatedFrom(""""),
+}
+
+packet MetaDataX {
+    float64 body,
+}")).
+Eval vm_compute in ("<<<M1301>>>" ++ check (runes_of_ascii "
+
+  packet A
+{u8 a
+
+    ,
+	} packet 
+B { u16
+
+    b , }root packet P
+
+    {u8 K
+    , match
+    K as M
+	{ [ 1
+,
+	2 ]: 
+A
+
+    ,
+
+3 :B
+    ,	7
+    : A,
+	}
+	,  }
+
+")).
+Eval vm_compute in ("<<<M250>>>" ++ check (runes_of_ascii "MetaData // a // b
+o {string Foo
+    , }
+MetaData  msg_type { Header len `" ++ [28040; 24687; 31867; 22411]%N ++ runes_of_ascii "`
+,
+    }
+options
+{ tag
+= '0' ;
+    o=
+""CRC32"" ; Logon = ""`tick`"" ;// a // b
+}")).
+Eval vm_compute in ("<<<M513>>>" ++ check (runes_of_ascii "packet uint8x
+{ match pack
+    as msg_type	{
+    0123456789 :	float
+}
+,
+} packet //	t
+a1
+    { } options {packetx
+    = '\x00'	; float32= ""a	b""  ; }
+")).
+Eval vm_compute in ("<<<M1793>>>" ++ check (runes_of_ascii "packet A {
     u8 a,
 }
+
 packet B {
     u16 b,
 }
-packet C {
-    u32 c,
-}
-root packet M {
-    u16 Kc, u16 Kb, u16 Ka,
-    match Kc as X {
-        9 : A,
-        10 : B,
+
+root packet P {
+    u8 K,
+    match K as M {
+        [1, 2] : A,
+        3 : B,
+        7 : A,
     },
-    match Kb as Y {
-        2 : C,
-        1 : A,
-    },
-    match Ka as Z {
-        1 : B,
-    },
-    A, B, C,
-}
-")).
-Eval vm_compute in ("<<<M1884>>>" ++ check (runes_of_ascii "packet i8i8
-{
-
-    repeat
-
-char[
-00]	Pad  `a\`,
-    @leftPad 
-( 
-'\x00'	)
-
-    string a1@lengthOf(tag
-	)
-    ``	,float64
-u128
-
-    @calculatedFrom( 
-""1"") ,
-@lengthOf( x) 
-u128
-
-@lengthOf(
-    tag
-
-)
-
-`" ++ [28040; 24687; 31867; 22411]%N ++ runes_of_ascii "`	,
-    int64
-u ,A//x
-  T`say ""hi""` , 
 }")).
-Eval vm_compute in ("<<<M124>>>" ++ check (runes_of_ascii "MetaData Z9_
-{zchar[4294967296 ]
-    leftPad `u8 x,`,
+Eval vm_compute in ("<<<M467>>>" ++ check (runes_of_ascii "packet uint8x
+{ match pack
+    as msg_type	{
+    0123456789 :	float
 }
-MetaData body { trueish
-    len `// not a comment` , }root
-packet // @lengthOf(
-u8x{ char[ 10 ] x
-    @calculatedFrom(
-// a // b
-// packet A { u8 x, }
-""\" ++ [233]%N ++ runes_of_ascii """ ) , }
+,
+} packet //	t
+{
+    a1 } options {packetx
+    = '\x00'	; u128= ""a	b""  ; }
 ")).
-Eval vm_compute in ("<<<M1536>>>" ++ check (runes_of_ascii "
-MetaData x_y_z 
-    //x
-
-//x
-  {	int32
-o  ,
-zchar[
-65535 
-]	Packet
-
+Eval vm_compute in ("<<<M515>>>" ++ check (runes_of_ascii "packet uint8x
+{ match pack
+    as msg_type	{
+    0123456789 :	float
+}
 ,
-i64_ o  ,i64
-
-o 
-`
-`
+} packet //	t
+a1
+    { } options {packetx
+    = '\x00'	; u128 ""a	b""  ; }
+")).
+Eval vm_compute in ("<<<M398>>>" ++ check (runes_of_ascii "packet [
+{ match pack
+    as msg_type	{
+    0123456789 :	float
+}
 ,
-
-    }options {x= 
-//x
-/// triple
-	  u8  ; 
-    // " ++ [27880; 37322]%N ++ runes_of_ascii "
-// a // b
-	} 	 // trailing space ")).
-Eval vm_compute in ("<<<M1582>>>" ++ check (runes_of_ascii "root packet lengthOf	{ @leftPad
-
-( ' ' 	 // c
-  ) 
-repeat
-	char	MetaDataX ,
-	}MetaData
-    Pad  { msg_type
-
-rootA 	 // trailing space 
-
-  `// not a comment`
+} packet //	t
+a1
+    { } options {packetx
+    = '\x00'	; u128= ""a	b""  ; }
+")).
+Eval vm_compute in ("<<<M423>>>" ++ check (runes_of_ascii "packet uint8x
+{ match pack
+    as ,	{
+    0123456789 :	float
+}
 ,
+} packet //	t
+a1
+    { } options {packetx
+    = '\x00'	; u128= ""a	b""  ; }
+")).
+Eval vm_compute in ("<<<M1855>>>" ++ check (runes_of_ascii "
+packet
+	uint8x  {
+match
+pack 
+as
+	msg_type
+{ 0123456789: float
+	}, }
+packet 	 //	t
+a1
+{	}options
+{
+	packetx	= 
+'\x00'
+	;
+u128 
+=	""a	b""  }
+")).
+Eval vm_compute in ("<<<M1783>>>" ++ check (runes_of_ascii "
+
+  packet A 
+{match
+
+k	as n {	[ 1  ,
+22	,
+007, 
+4 
+,5 ,	66	,
+
+7  , 
+8  , 9 ,
+
+10,
+
+    11 ,  12
+    ]:
+B
+
+    2 :C}  ,
+
     }
 ")).
-Eval vm_compute in ("<<<M392>>>" ++ check (runes_of_ascii "packet packet uint8x
-{ match pack
-    as msg_type	{
-    0123456789 :	float
-}
-,
-} packet //	t
-a1
-    { } options {packetx
-    = '\x00'	; u128= ""a	b""  ; }
+Eval vm_compute in ("<<<M259>>>" ++ check (runes_of_ascii "  MetaData repeatCount // c
+{char[
+42 // " ++ [27880; 37322]%N ++ runes_of_ascii "
+]
+    // " ++ [128512]%N ++ runes_of_ascii " emoji
+    MetaDataX ,
+    // @lengthOf(
+    zchar[
+// " ++ [27880; 37322]%N ++ runes_of_ascii "
+//x
+0] asx , }
 ")).
-Eval vm_compute in ("<<<M466>>>" ++ check (runes_of_ascii "packet uint8x
-{ match pack
-    as msg_type	{
-    0123456789 :	float
+Eval vm_compute in ("<<<M1468>>>" ++ check (runes_of_ascii "MetaData msg_type {
 }
-,
-} packet //	t
-a1 a1
-    { } options {packetx
-    = '\x00'	; u128= ""a	b""  ; }
-")).
-Eval vm_compute in ("<<<M1390>>>" ++ check (runes_of_ascii "packet A {
-    match k as n {
-        [
-            1, 22, 007, 4, 5,
-            66, 7, 8, 9, 10,
-            11
-        ] : B,
-        2 : C,
-    },
+
+root packet A {
+    repeat i32 leftPad `it's`,
+    //x
+}
+
+root packet a1 {
+    char[255] falsey,
 }")).
-Eval vm_compute in ("<<<M462>>>" ++ check (runes_of_ascii "packet uint8x
-{ match pack
-    as msg_type	{
-    0123456789 :	float
-}
-,
-} a1 //	t
-packet
-    { } options {packetx
-    = '\x00'	; u128= ""a	b""  ; }
+Eval vm_compute in ("<<<M1162>>>" ++ check (runes_of_ascii "MetaData leftPad { chars MetaDataX , } packet repeatCount {
+// c
+char[ 255 ] uint8x `" ++ [233]%N ++ runes_of_ascii "` , } MetaData pack { As Foo , }")).
+Eval vm_compute in ("<<<M102>>>" ++ check (runes_of_ascii "packet
+    // " ++ [128512]%N ++ runes_of_ascii " emoji
+    body {match Logon  as _x
+    {
+4294967296
+// a // b
+//x
+:
+_x , """ ++ [28040; 24687]%N ++ runes_of_ascii """
+    : u128
+    ,} , }
 ")).
-Eval vm_compute in ("<<<M505>>>" ++ check (runes_of_ascii "packet uint8x
-{ match pack
-    as msg_type	{
-    0123456789 :	float
-}
+Eval vm_compute in ("<<<M1484>>>" ++ check (runes_of_ascii "packet
+
+    A
+{ match
+	k as n  {	[ ""a""
+    ,
+""bb""
+    ,
+	""c c""
+
 ,
-} packet //	t
-a1
-    { } options {packetx
-    = '\x00'	 u128= ""a	b""  ; }
-")).
-Eval vm_compute in ("<<<M1653>>>" ++ check (runes_of_ascii "packet A {
-    match k as n {
-        [
-            22, 4, 66, 8, 10,
-            ""a"", ""c c"", ""e"", ""g"", ""i""
-        ] : B,
-        2 : C,
-    },
+
+""d""
+]
+
+    : B
+
+    2
+
+:
+	C 
+} , } ")).
+Eval vm_compute in ("<<<M931>>>" ++ check (runes_of_ascii "packet A {
+    u16 len @lengthOf(body) `
+`,
+    u32 crc @calculatedFrom(""CRC32"") `
+`,
+    string body,
 }")).
-Eval vm_compute in ("<<<M1938>>>" ++ check (runes_of_ascii "packet A
+Eval vm_compute in ("<<<M1248>>>" ++ check (runes_of_ascii "  options
+{LittleEndian 
+= true 
+; }
 
-    {
+    root  packet
 
-u8 a
-,	}
-	packet
-B  {
+P {
 
-u16	b
+    repeat
+char
+cs
 
-,	}root packet
+, u8
+	x, }
 
-    P
-{
-u8
-    K, match  K as 
-M
-
-    {
-1
-    :A
-,
-1:
-
-    B 
-, }
-
+")).
+Eval vm_compute in ("<<<M199>>>" ++ check (runes_of_ascii "packet falsey { string a1 @lengthOf( packetx ) , }
+packet	int { Header	@lengthOf( stringy)
 , }")).
-Eval vm_compute in ("<<<M1805>>>" ++ check (runes_of_ascii "MetaData	leftPad { 
-// c
-chars
-    MetaDataX ,}
-
-    packet
-
-repeatCount{ char[ 255] 
-uint8x
-	`" ++ [233]%N ++ runes_of_ascii "`
-    ,}	MetaData
-
-    pack{ As Foo,
-}")).
-Eval vm_compute in ("<<<M1448>>>" ++ check (runes_of_ascii "
-
-  packet	B 
-{
-	u8
-a,	}	root
-packet
-    P{
-u8
-K
-	,
-match
-
-    K
-
-    as
-Body
-	{1
-:  B
-,
-},u16
-    L
-
-@lengthOf(  Body
-
-) ,
-} ")).
-Eval vm_compute in ("<<<M1641>>>" ++ check (runes_of_ascii "options {
-}
-
-MetaData u8x {
-    uint8x body `crlf
-    line`,
-    calculatedFrom body,
-}
-
-options {
-}
-
-root packet options1 {
-}")).
-Eval vm_compute in ("<<<M1141>>>" ++ check (runes_of_ascii "// c
-MetaData leftPad { chars MetaDataX , } packet repeatCount { char[ 255 ] uint8x `" ++ [233]%N ++ runes_of_ascii "` , } MetaData pack { As Foo , }")).
-Eval vm_compute in ("<<<M1174>>>" ++ check (runes_of_ascii "MetaData leftPad { chars MetaDataX , } packet repeatCount { char[ 255 ] uint8x `" ++ [233]%N ++ runes_of_ascii "` ,
-// c
-} MetaData pack { As Foo , }")).
-Eval vm_compute in ("<<<M300>>>" ++ check (runes_of_ascii "packet
-Logon  { repeat u {zchar { zchar[ 007
-] a1
-`` ,  x_y_z@calculatedFrom(
-//
-// " ++ [128512]%N ++ runes_of_ascii " emoji
-""{,}""
-    ), }, } ,}
-")).
-Eval vm_compute in ("<<<M901>>>" ++ check (runes_of_ascii "packet A {
+Eval vm_compute in ("<<<M892>>>" ++ check (runes_of_ascii "packet A {
   match k as n {
-    [""a"", ""bb"", 007, ""d"", ""e"", 66, ""g"", ""h"", 9, ""j"", ""k""] : B,
+    [1, 22, 007, 4, 5, 66, 7, 8, 9, 10, 11] : B
     2 : C
   },
 }")).
-Eval vm_compute in ("<<<M1813>>>" ++ check (runes_of_ascii "packet A {
-    u32 crc @calculatedFrom(""x\
-        y""),
-    @calculatedFrom(""x\
-        y"")
-    u8 y,
+Eval vm_compute in ("<<<M873>>>" ++ check (runes_of_ascii "packet A {
+  match k as n {
+    [1, 22, ""c c"", 4, 5, ""f"", 7, 8, ""i""] : B,
+    2 : C
+  },
 }")).
-Eval vm_compute in ("<<<M583>>>" ++ check (runes_of_ascii "
-packet
-    asx {match u128 as lengthOf lengthOf
-{
-//	t
-// `tick` ""quote"" 'q'
-255 : x ,
-    } ,	}")).
-Eval vm_compute in ("<<<M624>>>" ++ check (runes_of_ascii "
+Eval vm_compute in ("<<<M617>>>" ++ check (runes_of_ascii "
 packet
     asx {match u128 as lengthOf
 {
 //	t
 // `tick` ""quote"" 'q'
 255 : x ,
-    } ,	repeat")).
-Eval vm_compute in ("<<<M588>>>" ++ check (runes_of_ascii "
-packet
-    asx {match u128 as lengthOf
-{ {
-//	t
-// `tick` ""quote"" 'q'
-255 : x ,
-    } ,	}")).
-Eval vm_compute in ("<<<M574>>>" ++ check (runes_of_ascii "
-packet
-    asx {match as u128 lengthOf
-{
-//	t
-// `tick` ""quote"" 'q'
-255 : x ,
-    } ,	}")).
-Eval vm_compute in ("<<<M577>>>" ++ check (runes_of_ascii "
-packet
-    asx {match u128  lengthOf
-{
-//	t
-// `tick` ""quote"" 'q'
-255 : x ,
-    } ,	}")).
-Eval vm_compute in ("<<<M567>>>" ++ check (runes_of_ascii "
-packet
-    asx { u128 as lengthOf
-{
-//	t
-// `tick` ""quote"" 'q'
-255 : x ,
-    } ,	}")).
-Eval vm_compute in ("<<<M853>>>" ++ check (runes_of_ascii "packet A {
-  match k as n {
-    [1, 22, 007, 4, 5, 66, 7, 8] : B
-    2 : C
-  },
-}")).
-Eval vm_compute in ("<<<M1912>>>" ++ check (runes_of_ascii "options 	 // @lengthOf(
+    } 	}")).
+Eval vm_compute in ("<<<M1275>>>" ++ check (runes_of_ascii "
 
-{	a1	=  65535
-
-    // `tick` ""quote"" 'q'
-	// c
-	}
-")).
-Eval vm_compute in ("<<<M822>>>" ++ check (runes_of_ascii "packet A {
-  match k as n {
-    [1, 22, ""c c"", 4, 5] : B
-    2 : C
-  },
-}")).
-Eval vm_compute in ("<<<M798>>>" ++ check (runes_of_ascii "packet A {
-  match k as n {
-    [""a"", ""bb"", 007] : B
-    2 : C
-  },
-}")).
-Eval vm_compute in ("<<<M1831>>>" ++ check (runes_of_ascii "root packet P {
-    u8 s_u8,
-    repeat u8 r_u8,
-    u16 b_len,
-}")).
-Eval vm_compute in ("<<<M314>>>" ++ check (runes_of_ascii "root packet string_{
-char[] matchKey ,
-} packet x {
-    } 	 ")).
-Eval vm_compute in ("<<<M764>>>" ++ check (runes_of_ascii "float32 true uint8 f32 i64 i32 @leftPad ) char[ } uint8")).
-Eval vm_compute in ("<<<M1208>>>" ++ check (runes_of_ascii "packet body { i32 f32a
-// c
-`{ , }` , } options { }")).
-Eval vm_compute in ("<<<M1611>>>" ++ check (runes_of_ascii "packet stringy {
-}
-
-MetaData crc {
-    u16 o,
-}")).
-Eval vm_compute in ("<<<M31>>>" ++ check (runes_of_ascii "options {
-x=
-""{,}""
-matchKey=  true	; }
-")).
-Eval vm_compute in ("<<<M274>>>" ++ check (runes_of_ascii "packet Z9_
-{ }
-    packet Pad { } 	 ")).
-Eval vm_compute in ("<<<M1063>>>" ++ check (runes_of_ascii "packet A {
- u8 x `d x`, // c x
-}")).
-Eval vm_compute in ("<<<M1033>>>" ++ check (runes_of_ascii "packet A {
- u8 x `d" ++ [11]%N ++ runes_of_ascii "`, // c" ++ [11]%N ++ runes_of_ascii "
-}")).
-Eval vm_compute in ("<<<M338>>>" ++ check (runes_of_ascii "root packet
-msg_type { }
-")).
-Eval vm_compute in ("<<<M1760>>>" ++ check (runes_of_ascii "
-packet leftPad
-	{
+  options{ FixedStringPadFromLeft
+= 
+true 
+; }root 
+packet  P {char[
+    4 ]
+z,
 	}")).
-Eval vm_compute in ("<<<M162>>>" ++ check (runes_of_ascii "
-packet f32a  { }
-")).
-Eval vm_compute in ("<<<M1002>>>" ++ check (runes_of_ascii "// c" ++ [8192]%N ++ runes_of_ascii "
-packet A {
+Eval vm_compute in ("<<<M830>>>" ++ check (runes_of_ascii "packet A {
+  match k as n {
+    [1, ""bb"", 007, ""d"", 5, ""f""] : B,
+    2 : C
+  },
 }")).
-Eval vm_compute in ("<<<M277>>>" ++ check (runes_of_ascii "MetaData i64_ { }")).
-Eval vm_compute in ("<<<M1571>>>" ++ check (runes_of_ascii "MetaData tag {
-}")).
-Eval vm_compute in ("<<<M732>>>" ++ check (runes_of_ascii "// a
-// b
+Eval vm_compute in ("<<<M611>>>" ++ check (runes_of_ascii "
+packet
+    asx {match u128 as lengthOf
+{
+//	t
+// `tick` ""quote"" 'q'
+255 : x")).
+Eval vm_compute in ("<<<M890>>>" ++ check (runes_of_ascii "packet A { Inner { match k as n { [1,22,007,4,5,66,7,8,9,10] : B, }, }, }")).
+Eval vm_compute in ("<<<M1283>>>" ++ check (runes_of_ascii "root packet P {
+    u16 a,
+    u32 Sum @calculatedFrom(""CR\
+C32""),
+}
 ")).
-Eval vm_compute in ("<<<M157>>>" ++ check (runes_of_ascii "//
+Eval vm_compute in ("<<<M838>>>" ++ check (runes_of_ascii "packet A { Inner { match k as n { [1,22,007,4,5,66] : B, }, }, }")).
+Eval vm_compute in ("<<<M751>>>" ++ check (runes_of_ascii "options @calculatedFrom( repeat } [ @tag( uint32 char[] ] :")).
+Eval vm_compute in ("<<<M1556>>>" ++ check (runes_of_ascii "MetaData M {
+    u8 x `a
+    b`,
+    T t `a
+    b`,
+}")).
+Eval vm_compute in ("<<<M1207>>>" ++ check (runes_of_ascii "packet body { i32 f32a // c
+`{ , }` , } options { }")).
+Eval vm_compute in ("<<<M1100>>>" ++ check (runes_of_ascii "// top
+MetaData // c0
+tag // c1
+{ // c2
+} // c3
+")).
+Eval vm_compute in ("<<<M47>>>" ++ check (runes_of_ascii "MetaData	lengthOf
+{
+Header o `doc`
+    ,}
+")).
+Eval vm_compute in ("<<<M325>>>" ++ check (runes_of_ascii "packet charz { } // packet A { u8 x, }")).
+Eval vm_compute in ("<<<M1628>>>" ++ check (runes_of_ascii "  packet
+
+    A{
+}
+
+    // c" ++ [65279]%N ++ runes_of_ascii "
+")).
+Eval vm_compute in ("<<<M36>>>" ++ check (runes_of_ascii "// c
+packet asx  {} /// triple")).
+Eval vm_compute in ("<<<M83>>>" ++ check (runes_of_ascii "
+options{ options1 =	7 ;
+}
+")).
+Eval vm_compute in ("<<<M1913>>>" ++ check (runes_of_ascii "
+
+  // trailing space 
+")).
+Eval vm_compute in ("<<<M1479>>>" ++ check (runes_of_ascii "// c" ++ [8192]%N ++ runes_of_ascii "
+    packet A {}")).
+Eval vm_compute in ("<<<M1956>>>" ++ check (runes_of_ascii "
+
+  packet 
+o
+	{}
 
 ")).
+Eval vm_compute in ("<<<M1039>>>" ++ check (runes_of_ascii "packet A {
+}// c 	")).
+Eval vm_compute in ("<<<M1044>>>" ++ check (runes_of_ascii "packet A {
+}// c" ++ [8203]%N)).
+Eval vm_compute in ("<<<M1749>>>" ++ check (runes_of_ascii "
+/// triple
+ 
+")).
+Eval vm_compute in ("<<<M1060>>>" ++ check (runes_of_ascii "// c x")).
+Eval vm_compute in ("<<<M769>>>" ++ check ([12]%N ++ runes_of_ascii "7" ++ [30]%N)).
